@@ -2,15 +2,15 @@
    wire:  node  = key nonnull async tag ...   tag 0 raise | 1 null | 2 leaf v | 3 kids kind count node*
           kind  = 0 object | 1 list | 2 serial object
           path  = len elem*
-   ops:   1 node nsched path*   -> run the schedule from init:   answer
-          2 node                -> the synchronous run (all flags cleared): answer
-          3 node                -> [1] data of den | [0] (den = fails)
-          4 node fuel           -> number of complete schedules explored and how many give the data/visible
-                                   nulls of the synchronous run:  total agree
-   answer: final(1/0) data nskipped path* nevents event*
+   ops:   1 lp node nsched path*   -> run the schedule from init (lp = 1: execute() called inside a running loop): answer
+          2 lp node                -> the synchronous run (all flags cleared): answer
+          3 lp node                -> [1] data of den | [0] (den = fails)
+          4 lp node fuel           -> all maximal schedules explored (background work included):  total agree
+                                      agree = the statement checks of [agree] below hold
+   answer: final(1/0) data nskipped path* npending path* nevents event*
           data  = 0 (error null) | 1 (null value) | 2 v | 3 kind count (key data)*
-          event = 0 path (call) | 1 path (awaitable completed) | 2 path path (nulled position, error path)
-                  | 3 path (cancelled) | 4 path (orphaned)
+          event = tag bg path [path]   tag 0 call | 1 awaitable completed | 2 nulled position + error path
+                                       | 3 cancelled | 4 abandoned;  bg = 1: background work (an error is dropped)
    [999990+] = malformed input. *)
 From GV Require Import Base.Prelude Exec.ErrorsAlg Exec.Async.
 
@@ -84,26 +84,27 @@ Fixpoint enc_data (d : data) : list N :=
          end) fs
   end.
 
+Definition enc_tag (t : tag) : N :=
+  match t with TCall => 0 | TDone => 1 | TErr => 2 | TCancel => 3 | TOrphan => 4 end.
+Definition enc_bool (b : bool) : N := if b then 1 else 0.
 Definition enc_ev (e : ev) : list N :=
   match e with
-  | ECall p => 0 :: enc_path p
-  | EDone p => 1 :: enc_path p
-  | EErr a o => 2 :: enc_path a ++ enc_path o
-  | ECancel p => 3 :: enc_path p
-  | EOrphan p => 4 :: enc_path p
+  | Ev TErr b a o => 2 :: enc_bool b :: enc_path a ++ enc_path o
+  | Ev t b p _ => enc_tag t :: enc_bool b :: enc_path p
   end.
 
 Definition enc_answer (s : st) (evs : list ev) (skipped : list pos) : list N :=
   match s with
-  | SDone _ d => 1 :: enc_data d
+  | SDone _ d _ => 1 :: enc_data d
   | _ => [0; 1]
   end ++ N.of_nat (length skipped) :: flat_map enc_path skipped
+      ++ N.of_nat (length (pend s)) :: flat_map enc_path (pend s)
       ++ N.of_nat (length evs) :: flat_map enc_ev evs.
 
-Definition run_init (root : node) (sched : list pos) : list N :=
-  match init root with
+Definition run_init (lp : bool) (root : node) (sched : list pos) : list N :=
+  match init lp root with
   | (ROk s0, e0) => let '(s, e1, sk) := exec s0 sched in enc_answer s (e0 ++ e1) sk
-  | (RFail _, _) => [999993]
+  | (RFail _ _, _) => [999993]
   end.
 
 Definition data_eqb (a b : data) : bool := nat_list_eqb (enc_data a) (enc_data b).
@@ -115,11 +116,29 @@ Definition outermostb (P : list pos) (p : pos) : bool :=
 Definition mem (p : pos) (l : list pos) : bool := existsb (nat_list_eqb p) l.
 Definition subset (a b : list pos) : bool := forallb (fun p => mem p b) a.
 
-Definition agree (ref : option data) (x : st * list ev) : bool :=
+Fixpoint ordb (K : list N) : list N -> bool :=
+  fix inner (l : list N) : bool :=
+    match l with
+    | [] => true
+    | x :: l' =>
+        match K with
+        | [] => false
+        | k :: K' => if x =? k then inner l' else ordb K' l
+        end
+    end.
+Definition fields (evs : list ev) : list N :=
+  flat_map (fun e => match ev_pos e with k :: _ => [k] | [] => [] end) evs.
+Definition serial_ok (root : node) (evs : list ev) : bool :=
+  match root with
+  | Node _ _ _ (OKids KSer) ks => ordb (map key ks) (fields evs)
+  | _ => true
+  end.
+
+Definition agree (root : node) (ref : option data) (x : st * list ev) : bool :=
   match ref, result_data (fst x) with
   | Some a, Some b =>
       let np := nulled_positions (snd x) in
-      data_eqb a b
+      data_eqb a b && serial_ok root (snd x)
       && subset (filter (outermostb np) np) (dnulls b) && subset (dnulls b) (filter (outermostb np) np)
       && forallb (fun o => nulled (dnulls b) o) (error_paths (snd x))
       && forallb (fun p => nulled np p) (cancelled (snd x) ++ orphaned (snd x))
@@ -128,25 +147,26 @@ Definition agree (ref : option data) (x : st * list ev) : bool :=
 
 Definition run (inp : list N) : list N :=
   match inp with
-  | op :: r =>
+  | op :: lpn :: r =>
+    let lp := lpn =? 1 in
     match dec_node (S (length r)) r with
     | Some (root, r') =>
       match op with
       | 1 => match r' with
-             | n :: r'' => run_init root (dec_paths (N.to_nat n) r'')
+             | n :: r'' => run_init lp root (dec_paths (N.to_nat n) r'')
              | [] => [999992]
              end
-      | 2 => run_init (desync root) []
+      | 2 => run_init false (desync root) []
       | 3 => match den root with Some d => 1 :: enc_data d | None => [0] end
-      | 4 => match r', init root, sync_result root with
+      | 4 => match r', init lp root, sync_result root with
              | fuel :: _, (ROk s0, e0), (ROk sr, _) =>
                  let rs := explore (N.to_nat fuel) s0 e0 in
-                 [N.of_nat (length rs); N.of_nat (length (filter (agree (result_data sr)) rs))]
+                 [N.of_nat (length rs); N.of_nat (length (filter (agree root (result_data sr)) rs))]
              | _, _, _ => [999994]
              end
       | _ => [999991]
       end
     | None => [999990]
     end
-  | [] => [999990]
+  | _ => [999990]
   end.
